@@ -27,6 +27,9 @@ deriving Repr
 inductive BatchFn | each (f : Fn) | rev | sumall
   /-- length-CHANGING chunk functions (round 3): drop the chunk's last element / repeat its first one -/
   | droplast | dupfirst
+  /-- one row per chunk holding the chunk's length: NON-empty on the empty slice, so a batch operator that calls its
+      function on an empty partition (the real chunk loop never does) becomes visible -/
+  | countrow
 deriving Repr
 inductive Comb | count | sum | min | max | minT | maxT | distinctSet | topK (k : Nat)
   /-- user combiners with non-`Option` accumulators (`Model/UserCombiners.lean`) -/
@@ -79,6 +82,7 @@ def BatchFn.eval : BatchFn → List Val → List Val
   | .sumall, c => c.map (fun _ => .int ((c.map toInt).foldl (· + ·) 0))
   | .droplast, c => c.dropLast
   | .dupfirst, c => match c with | [] => [] | x :: xs => x :: x :: xs
+  | .countrow, c => [.int c.length]
 
 /-! ## `Val`-level combiners used by the pipeline model (accumulators are `Val`s) -/
 
